@@ -42,8 +42,23 @@ fn classify(status: Option<i32>, signal: Option<i32>, timeout: bool, text: &str,
         return v(&format!("signal-{s}"), "compiler killed by a signal (stack overflow / abort)".into());
     }
     if text.contains("Cranelift Error") || text.contains("Error defining function") || text.contains("Verifier errors") {
-        let l = text.lines().find(|l| l.contains("Error")).unwrap_or("").chars().take(160).collect();
-        return v("codegen-internal-error", l);
+        let l: String = text.lines().find(|l| l.contains("Error")).unwrap_or("").chars().take(160).collect();
+        // the verifier's own message (`- inst18 (..): arg 0 (v18) has type i32, expected i64`), numbers
+        // blanked, identifies the defect: two different verifier errors get two labels
+        let detail: String = text
+            .lines()
+            .map(|x| x.trim())
+            .find(|x| x.starts_with("arg ") || x.starts_with("mismatched ") || x.contains(" has type "))
+            .or_else(|| text.lines().map(|x| x.trim()).find(|x| x.starts_with("- inst")))
+            .unwrap_or("")
+            .chars()
+            .take(60)
+            .map(|c| if c.is_ascii_digit() { '#' } else { c })
+            .collect();
+        if detail.is_empty() {
+            return v("codegen-internal-error", l);
+        }
+        return v(&format!("codegen-internal-error:{}", detail.trim()), l);
     }
     if text.contains("stdout:") && text.contains("failed!") {
         return v("link-failed", text.lines().rev().take(3).collect::<Vec<_>>().join(" / "));
@@ -115,7 +130,9 @@ pub fn compile_one(idx: usize, src: &str, deadline: Duration) -> Verdict {
     v
 }
 
-fn probes() -> Vec<String> {
+/// (text, file name): a crash on a probe is identified by the probe, so that the same panic message
+/// on ANOTHER program is still reported
+fn probes() -> Vec<(String, String)> {
     let mut v = vec![];
     if let Ok(rd) = std::fs::read_dir("/verif/corpus/probes") {
         let mut ps: Vec<_> = rd.flatten().map(|e| e.path()).collect();
@@ -123,7 +140,7 @@ fn probes() -> Vec<String> {
         for p in ps {
             if p.extension().map(|e| e == "capy").unwrap_or(false) {
                 if let Ok(t) = std::fs::read_to_string(&p) {
-                    v.push(t);
+                    v.push((t, p.file_name().map(|n| n.to_string_lossy().to_string()).unwrap_or_default()));
                 }
             }
         }
@@ -211,7 +228,9 @@ pub fn run(tier: &str, seed: u64, widen: bool) -> Report {
         return rep;
     }
     let mut rng = Rng::new(seed);
-    let mut inputs: Vec<(String, &'static str)> = probes().into_iter().map(|t| (t, "probe")).collect();
+    let probe_files = probes();
+    let probe_names: std::collections::HashMap<String, String> = probe_files.iter().cloned().collect();
+    let mut inputs: Vec<(String, &'static str)> = probe_files.into_iter().map(|(t, _)| (t, "probe")).collect();
     for t in deep_chains() {
         inputs.push((t, "deep-chain"));
     }
@@ -316,6 +335,8 @@ pub fn run(tier: &str, seed: u64, widen: bool) -> Report {
                     };
                     format!("panic-on-invalid-input@{krate}:{kind_of}")
                 }
+            } else if *kind == "probe" {
+                format!("{}#{}", v.class, probe_names.get(src).cloned().unwrap_or_default())
             } else {
                 v.class.clone()
             };
